@@ -187,3 +187,81 @@ theorem descend_nil_cons (d : Nat) (r : List Bytes) : descend d ([] :: r) = desc
   simp [descend]
 
 end PV.Canon
+
+namespace PV.Canon
+open PV
+
+/-! ### re-normalising a normal form -/
+
+theorem normStep_push (stack : List Bytes) (c : Bytes) (hc : Proper c) :
+    normStep true stack c = c :: stack := by
+  unfold normStep
+  have h1 : ¬ (c = [] ∨ c = dot) := fun e => e.elim hc.1 hc.2.1
+  have h2 : (c ≠ dotdot ∨ (true = false ∧ stack = []) ∨ stack.head? = some dotdot) := Or.inl hc.2.2.1
+  simp only [h1, h2, if_false, if_true]
+
+theorem fold_push (comps stack : List Bytes) (h : ∀ c ∈ comps, Proper c) :
+    comps.foldl (normStep true) stack = comps.reverse ++ stack := by
+  induction comps generalizing stack with
+  | nil => rfl
+  | cons c r ih =>
+    simp only [List.foldl_cons, normStep_push stack c (h c (by simp))]
+    rw [ih (c :: stack) (fun x hx => h x (by simp [hx]))]
+    simp
+
+/-- a join of proper names does not start with a slash -/
+theorem join_head (comps : List Bytes) (h : ∀ c ∈ comps, Proper c) :
+    (joinSlash comps).head? ≠ some slash := by
+  cases comps with
+  | nil => simp [joinSlash]
+  | cons c r =>
+    have hc := h c (by simp)
+    cases c with
+    | nil => exact absurd rfl hc.1
+    | cons x xs =>
+      have hx : x ≠ slash := fun e => hc.2.2.2 (by simp [e])
+      cases r <;> simp [joinSlash, hx]
+
+theorem splitroot_single (t : Bytes) (ht : t.head? ≠ some slash) :
+    splitroot (slash :: t) = ([slash], t) := by
+  unfold splitroot
+  simp only [ne_eq, not_true_eq_false, if_false]
+  cases t with
+  | nil => rfl
+  | cons d r =>
+    have hd : d ≠ slash := by simpa using ht
+    simp [hd]
+
+theorem splitroot_two (t : Bytes) (ht : t.head? ≠ some slash) :
+    splitroot (slash :: slash :: t) = ([slash, slash], t) := by
+  unfold splitroot
+  simp only [ne_eq, not_true_eq_false, if_false]
+  cases t with
+  | nil => rfl
+  | cons e r =>
+    have he : e ≠ slash := by simpa using ht
+    simp [he]
+
+/-- normalising a normal form changes nothing -/
+theorem normpath_normal (root : Bytes) (comps : List Bytes) (hroot : root = [slash] ∨ root = [slash, slash])
+    (h : ∀ c ∈ comps, Proper c) :
+    normpath (root ++ joinSlash comps) = root ++ joinSlash comps := by
+  have hj := join_head comps h
+  have hsr : splitroot (root ++ joinSlash comps) = (root, joinSlash comps) := by
+    rcases hroot with e | e <;> subst e
+    · exact splitroot_single _ hj
+    · exact splitroot_two _ hj
+  have hne : root ++ joinSlash comps ≠ [] := by rcases hroot with e | e <;> subst e <;> simp
+  have hrne : root ≠ [] := by rcases hroot with e | e <;> subst e <;> simp
+  unfold normpath
+  simp only [hne, if_false, hsr]
+  have hb : (decide (root ≠ [])) = true := by simp [hrne]
+  simp only [hb]
+  have hfold : (splitSlash (joinSlash comps)).foldl (normStep true) [] = comps.reverse := by
+    by_cases hc : comps = []
+    · subst hc; simp [joinSlash, splitSlash, splitSlash.go, normStep]
+    · rw [split_join comps hc (fun x hx => (h x hx).2.2.2), fold_push comps [] h]; simp
+  rw [hfold, List.reverse_reverse]
+  simp [hne]
+
+end PV.Canon
